@@ -103,8 +103,10 @@ EncEdge(items, at, n, forms, path) ==
       s    == Lcp(keys, at, n)
       m    == n - at
       form == forms[(Len(path) % Len(forms)) + 1]
-      lbl  == LabelBits(s, m, form)
       at2  == at + Len(s)
+      lbl0 == LabelBits(s, m, form)
+      \* a form that does not fit the cell (hml_short of a 500-bit label needs 2 + 2 * 500 bits) is not a choice any writer has
+      lbl  == IF Len(lbl0) + (IF at2 = n THEN Len(items[1].v.b) ELSE 0) > 1023 THEN LabelBits(s, m, "long") ELSE lbl0
   IN IF at2 = n
        THEN << [b |-> lbl \o items[1].v.b, x |-> Ordinary, r |-> <<>>, m |-> 0] >>
      ELSE LET left  == SelectSeq(items, LAMBDA it : it.k[at2 + 1] = 0)
